@@ -106,7 +106,7 @@ def run_unit(unit, rlimit=30, canary=False, extra=(), keep=True):
         return res
     text = open(out, encoding='utf-8').read()
     lines = text.split('\n')
-    res['items'] = [{k: it.get(k) for k in ('item', 'file', 'first_line', 'sha256', 'props', 'rewrites', 'out_lines', 'name')}
+    res['items'] = [{k: it.get(k) for k in ('item', 'file', 'first_line', 'sha256', 'props', 'rewrites', 'out_lines', 'name', 'lost_hints')}
                     for it in meta['items']]
     res['trusted'] = scan_trusted(text)
     res['canary_lines'] = meta.get('canary_lines', [])
@@ -175,6 +175,12 @@ def run_unit(unit, rlimit=30, canary=False, extra=(), keep=True):
         tags = set()
         tagged_lines = []
         for s in spans:
+            # only the clause itself carries the attribution: the primary span, or the span labelled
+            # "failed precondition / failed this postcondition / failed this invariant"
+            if not (s.get('is_primary') or str(s.get('label') or '').startswith('failed')):
+                continue
+            if s['line_end'] - s['line_start'] > 12:
+                continue
             for n in range(s['line_start'], s['line_end'] + 1):
                 if 1 <= n <= len(lines):
                     for t in TAG.findall(lines[n - 1]):
@@ -212,9 +218,32 @@ def run_unit(unit, rlimit=30, canary=False, extra=(), keep=True):
                 props = set(items[it].get('props') or [])
         clause = lines[pl - 1].strip()[:300] if pl else ''
         res['failures'].append({
-            'unit': unit, 'kind': what, 'function': fn_name, 'item_index': it, 'props': sorted(props), 'safety': safety,
+            'unit': unit, 'kind': what, 'function': fn_name, 'item_index': it, 'props': sorted(props), 'safety': safety, 'tagged': bool(tags),
             'clause': clause, 'gen_line': pl, 'exit_point': src_ref, 'rendered': rendered[:3000],
         })
+    # localisation: inside one function, a failed *tagged* intermediate assertion names the step that
+    # broke; postconditions of the same function that fail as a consequence are attributed to those
+    # properties only (when that narrows their own tag set to something non-empty)
+    by_item = {}
+    for f in res['failures']:
+        by_item.setdefault(f['item_index'], []).append(f)
+    for it_idx, fs in by_item.items():
+        if it_idx is None:
+            continue
+        hint_tags = set()
+        for f in fs:
+            if f['kind'] == 'assertion failed' and f.get('tagged'):
+                hint_tags |= set(f['props'])
+        if hint_tags:
+            for f in fs:
+                if f['kind'] == 'postcondition not satisfied':
+                    nar = set(f['props']) & hint_tags
+                    if nar:
+                        f['props'] = sorted(nar)
+        if items[it_idx].get('lost_hints'):
+            for f in fs:
+                f['weak'] = True
+                f['weak_reason'] = 'proof hint anchor lost: ' + '; '.join(items[it_idx]['lost_hints'])[:300]
     if res['undecided']:
         res['status'] = 'undecided'
     elif res['failures']:
